@@ -329,9 +329,12 @@ var pieces = []string{
 	"a", "Z", "0", " ", "abc def", `"`, `\`, `/`, "<", ">", "&", "'", "\u2028", "\u2029", "\n", "\r", "\t", "\b", "\f",
 	"\x00", "\x01", "\x1f", "\x7f", "é", "ß", "日本", "Ω", "😀", "𝄞", "\U0010FFFF", "\uFFFD", "\uFEFF", `\u0041`, `\"`, `\\`, `\n`,
 	"&lt;", "&amp;", "</script>", "<!--", "%20", "+", "null", "true", "{\"value\":1}", "[1,2]", ",", ":", "\u00A0", "\u0085",
+	// the literal TEXT of what encoders write for special characters (six characters each, not the characters), and
+	// tokens of the protocols the value travels in
+	`\u003c`, `\u003e`, `\u0026`, `\u2028`, `\\u003c`, `\/`, `\u00e9`, "HTTP/1.0", "HTTP/1.1 200 OK\r\n", "EVENT/1.0 200 OK", "\r\n\r\n", "0\r\n\r\n", "Content-Length: 0",
 }
 
-const hostile = "he said \"hi\" \\ / <b>&amp;</b> '\u2028\u2029' 😀𝄞 \n\t\u0001\u0000\u007f é日本 \\u0041 </script>"
+const hostile = "he said \"hi\" \\ / <b>&amp;</b> '\u2028\u2029' 😀𝄞 \n\t\u0001\u0000\u007f é日本 \\u0041 </script>" + ` \u003c\u003e\u0026 \\u003c HTTP/1.0 EVENT/1.0 `
 
 func genString(rnd *rand.Rand, k int, allowLong bool) string {
 	switch {
